@@ -218,7 +218,19 @@ class ParseContext(ParserEngine):
 
     @contextmanager
     def group(self) -> Any:
-        yield
+        # NOTE: the value of the group is the last node for an enclosing
+        #   name or override, and a cut within the group reaches the
+        #   enclosing option (a group is not an option)
+        self.states.push()
+        try:
+            yield
+            cutseen = self.state.cutseen
+            self.states.merge()
+        except FailedParse:
+            cutseen = self.states.undo().cutseen
+            self.state.cutseen = self.state.cutseen or cutseen
+            raise
+        self.state.cutseen = self.state.cutseen or cutseen
 
     _group = group
 
